@@ -14,6 +14,7 @@ import (
 func init() { Registry["C03"] = Spec{Run: runC03, Packages: []string{"txtar"}} }
 
 func runC03(ctx *core.Ctx) {
+	fixNLShape(ctx, "NL")
 	ctx.Trusted = append(ctx.Trusted, "go/types, go/ssa", "library-fact table of the bounds engine (bytes.Index*, HasPrefix/HasSuffix, TrimSpace, len/cap semantics)",
 		"standard-library callees (bytes.*, strings.*, os.ReadFile, golang.org/x/tools/txtar.Format) are total on in-range arguments")
 	ctx.Rule("TOT", "totality of txtar.Parse/ParseFile: every index and slice expression, type assertion, division, make and explicit panic in every module function reachable from Parse and ParseFile is proved unable to panic, from facts that dominate it on the control-flow graph pruned at no-return calls", 1)
